@@ -45,6 +45,15 @@ CHECKS["C09"] = dict(cat="model_checking", engine="RuntimeCycle", ref="§5 C09",
          "runtime; after every event the decoded variable values, bound variables, images, access paths, task state, clock and latch "
          "are validated against the specification, whose restart equals a fresh configuration (so dead bindings show as divergence).",
     note="raw %Q/%I image bytes between restart() and the next cycle are not compared (only what cycles publish); RETAIN FB instances are not generated")
+CHECKS["C10"] = dict(cat="fault_enumeration", engine="RetainFile", ref="§5 C10",
+    tech="TLA+ RetainFile crash model (TLC) instantiated with the syscall protocol observed from the real store; kill-at-every-crash-point replay validated by TLC",
+    text="TLC shows which save protocols are crash-atomic (in-place: no; temp+fsync+rename: yes; without fsync: kill-safe only). The real "
+         "FileRetainStore::store runs in a child under an LD_PRELOAD shim that logs its file-system calls; that observed protocol becomes "
+         "the model's program, and for every step (and several byte counts inside every write; every byte in thorough) the child is killed "
+         "there and FileRetainStore::load must return the old or the new snapshot in full and agree with the model's prediction. Codec "
+         "round trips over all retainable value shapes and structured corruptions of the STRN image (Ok/Err only, 1 GiB address-space limit) "
+         "are validated by the same trace specification.",
+    note="crash = SIGKILL at libc call boundaries; power loss decided on the model only; arbitrary-bytes totality is sampled")
 NOT_YET = "check not built yet in this round (see DESIGN.md build order); no claim made"
 
 
@@ -78,6 +87,8 @@ def main():
             "add_only": True,
         },
         "engines": [
+            {"name": "RetainFile", "path": "spec/RetainFile.tla", "serves_properties": ["C10"],
+             "kind_free_text": "TLA+ module + MC instance + trace refinement; LD_PRELOAD crash shim; harness sub-commands retain-run / retain-child"},
             {"name": "StdFb", "path": "spec/StdFb.tla", "serves_properties": ["C04"],
              "kind_free_text": "TLA+ module + MC instance + trace refinement; harness sub-commands fb-gen / fb-run"},
             {"name": "RuntimeCycle", "path": "spec/RuntimeCycle.tla", "serves_properties": ["C06", "C07", "C08", "C09"],
